@@ -70,6 +70,26 @@ def run_world(aiu, w, prefix=(), expect=None):
                 t = target.create_task(co())
                 sched.keep.append(t)
                 aws.append(lambda t=t: t)
+        for pi, pre in enumerate(w.get('pre', ())):
+            # earlier, completed use of the (still idle) target by this very thread
+            perr = AwErr(('pre', pi))
+
+            async def pre_co(pre=pre, perr=perr):
+                if pre['out'] == 'raise':
+                    raise perr
+                return ('pre', pi)
+
+            async def pre_main():
+                try:
+                    return ('ret', await aiu.ensure_aw(pre_co(), target))
+                except tx.SchedAbort:
+                    raise
+                except BaseException as e:   # noqa
+                    return ('exc', e)
+            pout = asyncio.run(pre_main(), loop_factory=lambda: sched.new_loop(f'pre{pi}'))
+            want = ('exc', perr) if pre['out'] == 'raise' else ('ret', ('pre', pi))
+            if pout[0] != want[0] or (pout[0] == 'exc' and pout[1] is not perr):
+                obs['errors'].append(f'pre-call {pi} got {pout!r}, expected {want!r}')
         if w['target'] == 'closed':
             target.close()
         stop = None
@@ -164,6 +184,8 @@ def check(x, w):
     tgt = obs['target']
     if tgt is not None and getattr(tgt, 'max_runners', 0) > 1:
         bad.append(('loop_run_by_two_threads', f'target loop had {tgt.max_runners} concurrent runners'))
+    for e in obs.get('errors', []):
+        bad.append(('wrong_outcome', e))
     for name, err in terr:
         if 'already running' in err or 'RuntimeError' in err:
             bad.append(('helper_thread_error', f'{name}: {err}'))
@@ -232,6 +254,14 @@ def worlds(tier):
                     {'api': api0, 'aw': 'coro', 'd': d0, 'out': 'ret'},
                     {'api': api1, 'aw': 'coro', 'd': d1, 'out': o1}]},
                     2 if not q or (api0, api1, d0, o1) == ('ensure', 'threadsafe', 0.0, 'ret') else 1)
+    # the idle target was used (successfully or not) by an earlier ensure_aw before it is run for good
+    for pre_out in ('raise', 'ret'):
+        for api in ('ensure', 'threadsafe'):
+            add({'target': 'running', 'pre': [{'out': pre_out}], 'callers': [
+                {'api': api, 'aw': 'coro', 'd': 0.0, 'out': 'ret'}]}, 1)
+        add({'target': 'idle', 'pre': [{'out': pre_out}], 'callers': [
+            {'api': 'ensure', 'aw': 'coro', 'd': D, 'out': 'ret'},
+            {'api': 'ensure', 'aw': 'coro', 'd': 0.0, 'out': 'ret'}]}, 1)
     # owner stops early
     for stop_at in (0.0, D / 2):
         add({'target': 'running', 'stop_at': stop_at, 'callers': [
